@@ -961,7 +961,6 @@ func kindReachable(fn *ssa.Function, target *ssa.BasicBlock, kind string) bool {
 	return found
 }
 
-
 // R8 eval.pure: evaluating an expression does not change it.
 func c01EvalPure(c *Ctx) {
 	c.Rule("R8 eval.pure: no function reachable from a Value method of a native-syntax expression node (or from hcl.Index / hcl.GetAttr / Traversal.TraverseAbs/Rel) writes memory it did not allocate, other than the lock-guarded per-context table of AnonSymbolExpr: evaluation must not modify the syntax tree, or a second evaluation of the same expression (a loop body, a repeated Value call) evaluates a different expression than the one written")
